@@ -1103,4 +1103,4 @@ def delta_accumulation(ctx, res):
                                   f"event reports another one")
         if ok:
             res.oblige(True, key, "", "")
-    res.floor(2)
+    res.floor(1)
